@@ -362,6 +362,10 @@ fn report_score_failure(out: &mut CaseOut, searcher: &Searcher, c: &Corpus, qdes
     if tfl.iter().any(|(tf, len)| tf > len) {
         out.coq_case("known:F6", format!("F6_class {}", cf::list(&tfl, |(a, b)| format!("({}, {})", a, b))), desc, true);
         out.count("score_failures_F6", 1);
+    } else if searcher.segment_readers().len() < 2 {
+        // one segment: the segment average IS the searcher average, no known class applies
+        out.count("score_failures_unclassified", 1);
+        out.spec_checked(false, desc);
     } else {
         let st = seg_stats(searcher, c.body);
         out.coq_case("known:F3", format!("F3_class {}", cf::list(&st, |(a, b)| format!("({}, {})", a, b))), desc, true);
@@ -530,6 +534,76 @@ fn part_e2e(rng: &mut Rng, out: &mut CaseOut, thorough: bool) {
     }
 }
 
+
+// ------------------------------------------------------------------ (b2) deep conjunctions (block_wand_intersection with >= 3 secondaries)
+/// One large segment, eight terms of skewed document frequency (25 % .. 97 %) with heavy-tailed term
+/// frequencies, so that for some late documents the decisive part of the score comes from the most
+/// frequent terms (the LAST secondaries of block_wand_intersection, whose block maxima enter the
+/// suffix-sum pruning bound).  Every subset of 4..6 terms as a conjunction of Must term clauses,
+/// K in {1,2,3,5}, against the exhaustive oracle.  Single segment and tf <= len/2 keep the known
+/// classes F3 / F6 out: any strictly-better-document-missed here is reported as a violation.
+const CONJ_TERMS: [(&str, u64); 8] = [("h", 25), ("i", 40), ("j", 55), ("k", 70), ("l", 80), ("m", 88), ("n", 93), ("o", 97)];
+
+fn part_conjunctions(rng: &mut Rng, out: &mut CaseOut, thorough: bool) {
+    let n_corpora = if thorough { 4 } else { 2 };
+    for ci in 0..n_corpora {
+        let ndocs = if thorough { 4200 } else { 2600 } + rng.below(300) as usize;
+        let mut sb = Schema::builder();
+        let body = sb.add_text_field("body", TEXT);
+        let tag = sb.add_text_field("tag", STRING);
+        let index = Index::create_in_ram(sb.build());
+        {
+            let mut w: IndexWriter = index.writer_with_num_threads(1, 100_000_000).expect("writer");
+            w.set_merge_policy(Box::new(tantivy::merge_policy::NoMergePolicy));
+            for _ in 0..ndocs {
+                let mut toks: Vec<&str> = vec![];
+                for (t, pct) in CONJ_TERMS.iter() {
+                    if rng.below(100) < *pct {
+                        let tf = match rng.below(100) { 0..=59 => 1, 60..=84 => rng.range(2, 3), 85..=94 => rng.range(4, 8), _ => rng.range(9, 14) };
+                        for _ in 0..tf { toks.push(t); }
+                    }
+                }
+                let target = (2 * toks.len() + 2).max(70 + rng.below(50) as usize);
+                while toks.len() < target { toks.push("z"); }
+                let mut d = TantivyDocument::default();
+                d.add_text(body, &toks.join(" "));
+                d.add_text(tag, &format!("t{}", rng.below(9)));
+                w.add_document(d).unwrap();
+            }
+            if ci % 2 == 1 { w.delete_term(Term::from_field_text(tag, "t3")); }
+            w.commit().expect("commit");
+            w.wait_merging_threads().ok();
+        }
+        let corpus = Corpus { index: index.clone(), body, tag, vals: HashMap::new(), nseg_target: 1 };
+        let searcher = index.reader().unwrap().searcher();
+        let extra = json!({"conjunction_corpus": ci, "docs": ndocs, "segments": searcher.segment_readers().len(), "deletes": ci % 2 == 1});
+        out.count("conj_corpora", 1);
+        // every subset of 4..6 of the 8 terms
+        for mask in 0u32..256 {
+            let n_terms = mask.count_ones();
+            if !(4..=6).contains(&n_terms) { continue; }
+            if !thorough && (mask as usize + ci) % 2 == 1 && n_terms == 4 { continue; }
+            let ws: Vec<&str> = (0..8).filter(|j| mask >> j & 1 == 1).map(|j| CONJ_TERMS[j].0).collect();
+            let q = BooleanQuery::new(ws.iter().map(|w| (Occur::Must, term_q(&corpus, w))).collect());
+            let qdesc = format!("and:{}", ws.join("&"));
+            let exh = match guarded(|| searcher.search(&q, &AllScores)) { Ok(Ok(v)) => v, r => { out.spec_checked(false, json!({"what": "exhaustive collector failed", "query": qdesc, "r": format!("{:?}", r.err())})); continue; } };
+            out.count("conj_queries", 1);
+            out.count(&format!("conj_queries_{}_terms", n_terms), 1);
+            out.count("conj_matches_total", exh.len() as u64);
+            for k in [1usize, 2, 3, 5] {
+                let o = if k == 3 && rng.chance(1, 3) { 1 } else { 0 };
+                let got = match guarded(|| searcher.search(&q, &TopDocs::with_limit(k).and_offset(o).order_by_score())) { Ok(Ok(v)) => v, r => { out.spec_checked(false, json!({"what": "TopDocs by score failed", "query": qdesc, "k": k, "r": format!("{:?}", r.err())})); continue; } };
+                out.count("conj_pages", 1);
+                if exh.len() > k + o { out.count("conj_pages_pruning_possible", 1); }
+                match check_score_page(&exh, &got, k, o, false) {
+                    Ok(()) => out.spec_checked(true, Value::Null),
+                    Err((why, missed)) => report_score_failure(out, &searcher, &corpus, &qdesc, &exh, &got, k, o, &why, missed, false, extra.clone()),
+                }
+            }
+        }
+    }
+}
+
 // ------------------------------------------------------------------ (c) corpus: witnesses of the known findings
 fn body_index(segs: &[Vec<String>]) -> (Index, Field) {
     let mut sb = Schema::builder();
@@ -624,5 +698,6 @@ fn main() {
     part_witnesses(&mut out);
     part_topn(&mut rng, &mut out, thorough);
     part_e2e(&mut rng, &mut out, thorough);
+    part_conjunctions(&mut rng, &mut out, thorough);
     out.finish(json!({"tier": args.tier, "seed": args.seed}));
 }
